@@ -122,6 +122,8 @@ class Model:
         self.modules: dict[str, ModuleInfo] = {}
         self.classes: dict[str, ClassInfo] = {}
         self.functions: dict[str, FuncInfo] = {}
+        self._mro_cache: dict = {}
+        self._rm_cache: dict = {}
         self._parse_all()
         self._bind_all()
         self._resolve_bases()
@@ -285,6 +287,12 @@ class Model:
 
     # ------------------------------------------------------------------ classes
     def mro(self, ci: ClassInfo) -> list[ClassInfo]:
+        c = self._mro_cache.get(ci.name)
+        if c is None:
+            c = self._mro_cache[ci.name] = self._mro(ci)
+        return c
+
+    def _mro(self, ci: ClassInfo) -> list[ClassInfo]:
         out = [ci]
         seen = {ci.name}
         cur = ci
@@ -297,13 +305,26 @@ class Model:
         return out
 
     def resolve_method(self, ci: ClassInfo, name: str) -> Optional[FuncInfo]:
+        key = (ci.name, name)
+        try:
+            return self._rm_cache[key]
+        except KeyError:
+            pass
+        r = None
         for c in self.mro(ci):
             if name in c.methods:
-                return c.methods[name]
-        return None
+                r = c.methods[name]
+                break
+        self._rm_cache[key] = r
+        return r
 
     def is_subclass(self, ci: ClassInfo, base_name: str) -> bool:
-        return any(c.name == base_name for c in self.mro(ci))
+        key = (ci.name, base_name)
+        r = self._rm_cache.get(("<sub>", key))
+        if r is None:
+            r = any(c.name == base_name for c in self.mro(ci))
+            self._rm_cache[("<sub>", key)] = r
+        return r
 
     def subclasses(self, base_name: str, strict=False) -> list[ClassInfo]:
         out = []
